@@ -1,7 +1,7 @@
 """K6 driver: classify every bounded-sink obligation of a set of units."""
 import re
 
-from .ir import strip_casts, norm_callee
+from .ir import strip_casts, norm_callee, strip_suffix
 from .util import resolve_ptr, backward_slice, const_int
 from .bounds import capacities, sinks_of, _uncast, _monotone_contains, describe, same_quantity, lin_le, _alloc_of, ALLOC_FNS
 from .bounds2 import Bounder, Cap, field_capacity, flex_capacity, field_id
@@ -156,9 +156,48 @@ def _classify_cap(prog, f, sink, what, d, n, cap, kind, L, B, nb):
         capq = Cap(syms=[a for a in args if not a.ty.endswith("*")], desc="a length parameter")
         if B.bounded(n, sink, capq):
             return ("F", "caller's buffer", "length is bounded by a length parameter")
+        r = _param_window(prog, f, L, B, sink, d, n)
+        if r is not None:
+            return r
         # typed out-parameter
         return ("X", "parameter %s" % (strip_casts(resolve_ptr(prog, d, f.unit)[0]).name or "?"), "length not related to any parameter")
     return ("X", "unknown destination (%s)" % describe(prog, f, strip_casts(resolve_ptr(prog, d, f.unit)[0])), "capacity of the destination is unknown")
+
+
+def _param_window(prog, f, L, B, sink, d, n):
+    """destination  buf + done  in the caller's buffer, with  done = phi(0, done + n)  the sum of what was written so far and
+    n <= total - done  for a length parameter `total`: by induction done <= total, so every write ends at or before
+    buf + total (the caller's obligation is the usual one: buf holds `total` bytes)"""
+    base, off = L.offset_form(d)
+    if off is None or not strip_casts(base).is_arg:
+        return None
+    keys = [k for k in off if k is not None]
+    if len(keys) != 1 or off.get(None, 0) != 0 or off[keys[0]] != 1:
+        return None
+    O = _uncast(L.syms[keys[0]])
+    if not (O.is_inst and O.op == "phi"):
+        return None
+    loop = f.loop_of(O.bb)
+    if loop is None or loop[0] is not O.bb:
+        return None
+    nb = _uncast(n)
+    for val, pred in zip(O.ops, O.x["inc"]):
+        if pred in loop[1]:
+            v = _uncast(val)
+            if not (v.is_inst and v.op == "add" and any(_uncast(x) is O for x in v.ops) and any(_uncast(x) is nb for x in v.ops)):
+                return None
+        elif not (val.is_const and val.is_int and val.uval == 0):
+            return None
+    for X in f.insts():
+        if X.op != "sub" or _uncast(X.ops[1]) is not O:
+            continue
+        P = _uncast(X.ops[0])
+        if not P.is_arg or P.ty.endswith("*"):
+            continue
+        if B.bounded(n, sink, Cap(syms=[X], desc="what is left of the caller's length")):
+            return ("F", "caller's buffer", "window at the running total: the length is at most  %s - total so far, the total starts "
+                    "at 0 and grows by exactly what is written" % (P.name or "length parameter"))
+    return None
 
 
 def _same_str(prog, f, a, b):
@@ -317,8 +356,21 @@ def run_k6(chk, prog, files, exceptions, rule="K6", known_fn=None):
             inst = "%s:%s#%d" % (f.name, what, k)
             if cls == "X":
                 key = (f.name, what, k)
+                # an exception may also name the buffer (a fixed array member) instead of the function: a compaction of the
+                # object's own buffer (source inside the same member) stays the same thing wherever the code is moved to
+                fkey = None
+                if what == "memmove" and capt.startswith("field "):
+                    fld_ = capt.split()[1]
+                    sp = strip_casts(c.ops[1])
+                    while sp.is_inst and sp.op == "getelementptr":
+                        if any("%s.%s" % (strip_suffix(s_).replace("struct.", ""), n_) == fld_ for (s_, n_) in sp.fields()):
+                            fkey = ("field:" + fld_, what)
+                            break
+                        sp = strip_casts(sp.ops[0])
                 if key in exceptions:
                     chk.exception(rule, inst, c, exceptions[key])
+                elif fkey in exceptions:
+                    chk.exception(rule, inst, c, exceptions[fkey])
                 else:
                     chk.violation(rule, inst, c, "length of %s into %s is not bounded by the destination's capacity on "
                                   "every path (%s): bytes taken from the input can be written past the buffer" % (
